@@ -112,6 +112,9 @@ def run(name, props, scratch=True):
             print(p, json.dumps(results[p])[:700])
     finally:
         sh("git -C %s checkout -- ." % target)
+        if "C10" in props:
+            # the C10 check regenerates the tracked race table from the (mutated) source: put the clean one back
+            sh("git -C %s checkout -- lean/BFL/Gen/RaceTable.lean" % V)
     meta.setdefault("checks_run", {}).update(results)
     commit = subprocess.check_output("git -C %s rev-parse --short HEAD" % V, shell=True, text=True).strip()
     for p, r in results.items():
